@@ -55,7 +55,7 @@ def sh(cmd, timeout=None, cwd=None, mem=True, env=None):
 
 
 # ------------------------------------------------------------------ harness metadata
-HARNESS_RE = re.compile(r'harness(?:_g)?!\(\s*name\s*=\s*(\w+)\s*,\s*prop\s*=\s*(\w+)\s*,\s*mode\s*=\s*(\w+)\s*,\s*kind\s*=\s*(\w+)\s*,'
+HARNESS_RE = re.compile(r'harness(?:_[a-z])?!\(\s*name\s*=\s*(\w+)\s*,\s*prop\s*=\s*(\w+)\s*,\s*mode\s*=\s*(\w+)\s*,\s*kind\s*=\s*(\w+)\s*,'
                         r'\s*tier\s*=\s*(\w+)\s*,\s*unwind\s*=\s*(\d+)\s*,')
 ATTR_RE = re.compile(r'//\s*@(\w+)\s+(\w+)\s*:\s*(.*)')
 
@@ -392,6 +392,11 @@ def run_solver(lines, timeout, seed=0, solver=None, want=None, any_solver=False)
     _QN += 1
     qpath = os.path.join(qdir, f'q_{os.getpid()}_{_QN}.smt2')
     open(qpath, 'w').write('\n'.join(lines) + '\n')
+    # cvc5 takes part for its verdict only (its models are not parsed): it reads the query without get-value
+    has_gv = any(l.startswith('(get-value') for l in lines)
+    qpath_v = qpath + '.v.smt2' if has_gv else qpath
+    if has_gv:
+        open(qpath_v, 'w').write('\n'.join(l for l in lines if not l.startswith('(get-value')) + '\n')
     pre = ['bash', '-c', f'ulimit -v {MEM_KB}; exec "$@"', 'x']
 
     def race(cfgs, cap):
@@ -399,8 +404,9 @@ def run_solver(lines, timeout, seed=0, solver=None, want=None, any_solver=False)
         procs = []
         for n, (sv, sd, ex) in enumerate(cfgs):
             of = open(f'{qpath}.out{n}', 'w+')
-            p = subprocess.Popen(pre + _solver_cmd(sv, qpath, cap, sd, ex), stdout=of, stderr=subprocess.STDOUT, text=True)
+            p = subprocess.Popen(pre + _solver_cmd(sv, qpath_v if 'cvc5' in sv else qpath, cap, sd, ex), stdout=of, stderr=subprocess.STDOUT, text=True)
             p.outfile = of
+            p.verdict_only = 'cvc5' in sv and has_gv
             procs.append(p)
 
         def output(p):
@@ -419,6 +425,9 @@ def run_solver(lines, timeout, seed=0, solver=None, want=None, any_solver=False)
                     pending.remove(p)
                     out = output(p)
                     v = _classify(out)
+                    if v == 'sat' and p.verdict_only:
+                        # a model is wanted and this solver's is not parsed: leave the answer to the others
+                        v = 'unknown'
                     if v in ('sat', 'unsat'):
                         for q in pending:
                             q.kill()
@@ -446,12 +455,17 @@ def run_solver(lines, timeout, seed=0, solver=None, want=None, any_solver=False)
             cfgs = [(Z3, seed + 1, ()), (Z3, seed + 2, ('smt.arith.nl.tangents=false',)), ('z3', seed + 3, ()),
                     (Z3, seed + 4, ('smt.arith.nl.grobner=false', 'smt.relevancy=0'))]
             if any_solver:
-                cfgs = cfgs[:3] + [('cvc5', seed, ())]
+                cfgs = cfgs[:3]
             cfgs = cfgs[:max(1, PORTFOLIO)]
+            if PORTFOLIO >= 2:
+                # cvc5 decides array-heavy and congruence-heavy queries that z3 does not (measured on the shuffle
+                # obligations); when a model is wanted only its `unsat` counts
+                cfgs.append(('cvc5', seed, ()))
             v, out = race(cfgs, timeout)
     finally:
-        if os.path.exists(qpath):
-            os.remove(qpath)
+        for f in {qpath, qpath_v}:
+            if os.path.exists(f):
+                os.remove(f)
     return v, out, time.time() - t0
 
 
